@@ -396,6 +396,9 @@ func buildEncs(kind string, orig []byte, c chooser, excl func(string) bool) ([]E
 		k := c.Intn(len(out), "first")
 		out = append(out[k:], out[:k]...)
 	}
+	// the byte-identical resubmission once more at the end (after it and its variants were rejected:
+	// a rejection must not be remembered as "seen, let it pass")
+	out = append(out, Enc{"identity-again", orig})
 	return out, nil
 }
 
@@ -425,6 +428,9 @@ func TestC05(t *testing.T) {
 			c.Kind = hist.FarmKinds[(u.N(len(hist.FarmKinds), "kind")+shard)%len(hist.FarmKinds)]
 		}
 		c.Gap = 1 + u.N(10, "gap")
+		if u.N(20, "longgap") == 0 {
+			c.Gap = 40 + u.N(80, "gaplong") // occasionally much later ("all later heights")
+		}
 		switch c.Kind {
 		case "EXPIRE_VOTES", "PROPOSAL_FINALIZE":
 			c.Pre = 0 // only in the block right after the prefix (see hist.FarmKinds)
